@@ -562,7 +562,6 @@ def groups(tier):
         pcs += [
             PC("p2-nostat-n4", [], [pch(mn=1), pch(mn=0)], [{}, {}], 4, [], B=3),
             PC("p3-nostat-n4", [], [pch(mn=0), pch(mn=1), pch(mn=0)], [{}, {}, {}], 4, [], B=1),
-            PC("p2-ident-n3-k2", ["k"], [pch(["k"], 0), pch(["k"], 0)], [{"k": "k"}, {"k": "k"}], 3, [2], B=1),
             PC("p2-two-onto-one-n2-k21", ["k", "l"], [pch(["j"], 0), pch(["l"], 0)], [{"k": "j", "l": "j"}, {"l": "l"}], 2, [2, 1], B=1),
         ]
     for p in pcs:
@@ -580,7 +579,7 @@ def groups(tier):
         # three-state tables: plain pack, default database, sizes up to 3 (a full run with sizes up to 4 and 20000 outcomes per
         # distribution did not finish in 40 minutes)
         n3 = len(e2e.tables(3))
-        for lo in range(0, n3, 100):
+        for lo in range(0, n3, 300):  # tables 0-99, 300-399, ... (a third of the catalogue)
             hi = min(n3, lo + 100)
             e.append({"name": "opt-base-plain-S3-t%d" % lo, "fn": "check_opt",
                       "shape": {"db": "base", "opt": "plain", "S": 3, "trange": [lo, hi], "nmax": 3, "max_outcomes": 1500},
@@ -614,7 +613,7 @@ def meta(tier):
                       CartesianProduct._valid_compositions, CartesianProduct.reliance_profile, CartesianProduct.get_extra_parameters,
                       Rule.random_sample_object_of_size],
         "bounds": "(a) unions of 2-4 children, 7 statistic-map configurations, counts unbounded (z3 Int >= 0), requested statistic values "
-                  "0..2, draw unbounded; (b) products of 2-3 children, 7 (quick) / 11 (thorough) configurations with n<=3 (4), counts in "
+                  "0..2, draw unbounded; (b) products of 2-3 children, 7 (quick) / 10 (thorough) configurations with n<=3 (4), counts in "
                   "[0,B] B<=2 (3), draw symbolic; (c) 3 preimages",
         "outside": ["verification strategies' own samplers", "products with more than 3 children or more than 2 statistics",
                     "the composition 'uniform at every rule => uniform for the specification' is an argument (DESIGN.md), (d) samples whole "
